@@ -15,8 +15,24 @@ def mk(idp, src, tol, smart):
     return dict(id=idp, src=list(src), cfg=dict(tolerant=tol, smart=smart), compile=True)
 
 
+def polluters(k):
+    """Parsers with plugins (custom operators on built-in and dynamic tokens, interceptors) built and
+    used in the SAME process before the judged cases: another instance must not change what a
+    plain parser does with any input (their own results are not judged here)."""
+    mkp = lambda i, src, cfg: dict(id="pollute%d:%d" % (k, i), src=list(src), cfg=cfg, compile=False)
+    return [mkp(1, b"5 ! ; a ! b", dict(tolerant=False, smart=False, custom=dict(prefix=[], infix=[], postfix=["NOT"]))),
+            mkp(2, b"a ^ b : c", dict(tolerant=True, smart=False, custom=dict(prefix=[], infix=[dict(name="DYN0", level=7), dict(name="COLON", level=3)], postfix=[]))),
+            mkp(3, b"@ a * * b", dict(tolerant=False, smart=True, custom=dict(prefix=["DYN1", "MULTIPLY"], infix=[], postfix=["DYN2"]))),
+            mkp(4, b"f(a)", dict(tolerant=True, smart=True, schain=["pass"], echain=["reent", "pass"], tchain=1))]
+
+
 def validate(ctx, cases):
-    res = ctx.run_harness("parse", cases, case_timeout_ms=5000)
+    run = []
+    for i, c in enumerate(cases):
+        if i % 400 == 0:
+            run += polluters(i)
+        run.append(c)
+    res = ctx.run_harness("parse", run, case_timeout_ms=5000)
     recs, fails = [], []
     for c in cases:
         r = res[c["id"]]
@@ -29,11 +45,9 @@ def validate(ctx, cases):
     byid = {c["id"]: c for c in cases}
     obs = {r["id"]: r for r in recs}
     ctx.drift_ids = getattr(ctx, "drift_ids", [])
-    for k in range(0, len(recs), 20000):
-        chunk = recs[k:k + 20000]
-        path = ctx.work + "/trace_c11.ndjson"
-        vlib.write_ndjson(path, chunk)
-        t = ctx.tlc("Trace_C11", "Trace_C11.cfg", env=dict(VERIF_TRACE=path), timeout=3000, xss="256m")
+    for k in range(0, len(recs), 200000):
+        chunk = recs[k:k + 200000]
+        t = ctx.tlc_trace("Trace_C11", "Trace_C11.cfg", chunk, timeout=3000, xss="256m")
         if t.tuples("REJECTED") or not t.ok:
             raise vlib.Infra("Trace_C11 did not consume the trace: %s" % (t.error or t.tuples("REJECTED")))
         for tid, clauses in render.parse_fail_lines(t.out):
@@ -41,7 +55,7 @@ def validate(ctx, cases):
         ctx.drift += len(t.tuples("DRIFT"))
         ctx.drift_ids += [x[1] for x in t.tuples("DRIFT")][:20]
         ctx.cov["traces_validated_against_impl"] += len(chunk)
-        if len(recs) > 20000:
+        if len(recs) > 200000:
             ctx.log("Trace_C11: %d/%d records validated" % (k + len(chunk), len(recs)))
     ctx.cov["evaluations"] += len(cases)
     return fails
@@ -62,6 +76,18 @@ def run(ctx):
             modes = MODES if (len(e["ks"]) <= 2 or not quick) else [ctx.rng.choice(MODES)]
             for (tol, smart) in modes:
                 cases.append(mk("mc%d:%d%d" % (nexp, tol, smart), text, tol, smart))
+            nexp += 1
+    # token-level mutations of valid programs
+    for cfg in (["MC_C11M_quick.cfg"] if quick else ["MC_C11M_thorough.cfg", "MC_C11M_thorough2.cfg"]):
+        mc = ctx.tlc("MC_C11M", cfg, timeout=3000, xss="256m")
+        if not mc.ok:
+            raise vlib.Infra("MC_C11M reports an error on the model: %s" % mc.error)
+        exported = mc.json_lines()
+        ctx.log("MC_C11M %s: %d states, %d mutated programs exported" % (cfg, mc.distinct, len(exported)))
+        for e in exported:
+            text = render.toks_to_text(e["toks"]).encode()
+            for (tol, smart) in ([ctx.rng.choice(MODES)] if quick else [(False, False), ctx.rng.choice(MODES[1:])]):
+                cases.append(mk("mu%d:%d%d" % (nexp, tol, smart), text, tol, smart))
             nexp += 1
     # byte-level inputs: random fragment sequences and mutated fixtures (shared with C10)
     for c in c10.random_inputs(ctx, 400 if quick else 6000, 14 if quick else 30) + c10.fixture_inputs(ctx, 200 if quick else 3000):
@@ -93,7 +119,7 @@ def run(ctx):
             ctx.notes.append("unreproduced failure on %r" % bytes(c["src"]))
     ctx.assumptions += ["error ranges are judged against the token list the REAL lexer returns for the same input",
                         "the no-panic / termination clause is decided by the Go watchdog (recover + 5 s budget per case)"]
-    ctx.finish(LEVEL, "token strings: every string <= MaxLen over the cfg's token kinds, space- and newline-separated, x 4 parser modes "
+    ctx.finish(LEVEL, "token strings: every string <= MaxLen over the cfg's token kinds, space- and newline-separated, x 4 parser modes; every single-token deletion / duplication / swap / replacement / insertion (cfg MutKinds) on every sequence of <= MaxStmts statement templates "
                "(TLC export) + seeded random byte-level fragment sequences and mutated fixtures; non-trivial = distinct inputs of >= 3 bytes",
                exhaustive=True)
 
